@@ -443,6 +443,11 @@ def reiterable_contract(loader, prop):
     return out
 
 
+#: subscribe calls that name no scheduler on purpose
+SCHEDULER_EXEMPT = [
+    ("reactivex/observable/connectableobservable.py", "source.subscribe(observer)", "auto_connect subscribes the observer to the connectable (a subject: nothing is scheduled)"),
+    ("reactivex/observable/defer.py", "throw(ex).subscribe(observer)", "the factory failed: the error is delivered by throw() on the current-thread scheduler"),
+]
 TIMED_OPS = ("delay", "delay_subscription", "time_interval", "debounce", "throttle_first", "sample", "take_with_time", "skip_with_time",
              "take_until_with_time", "skip_until_with_time", "take_last_with_time", "skip_last_with_time", "timeout", "throttle_with_mapper",
              "timeout_with_mapper", "delay_with_mapper")
@@ -489,6 +494,18 @@ def run_local(desc):
                     # timed operators: the same observable subscribed twice on a TestScheduler (timedrun.py resub)
                     r["replay_info"] = {"runner": "timedrun.py", "module": "-", "name": st.name.rstrip("_"), "mode": "resub"}
                 results.append(r)
+        # the scheduler a subscription was made with travels with it: every `.subscribe(...)` the file's functions issue names a
+        # scheduler (the one they were subscribed with, or the operator's own) - a source without a scheduler of its own
+        # (timer(d), interval(p), of(...)) otherwise runs on another clock than the rest of the pipeline
+        for n in ast.walk(m.tree):
+            if isinstance(n, ast.Call) and isinstance(n.func, ast.Attribute) and n.func.attr == "subscribe":
+                named = any(k.arg == "scheduler" for k in n.keywords) or len(n.args) >= 4 or any(k.arg is None for k in n.keywords)
+                text = ast.unparse(n)
+                why = next((w for (f_, frag, w) in SCHEDULER_EXEMPT if f_ == rel and frag in text), None)
+                results.append({"id": f"{rel}::subscribe-call@{text[:40]}/hands-a-scheduler-on", "verdict": "proved" if (named or why) else "refuted",
+                                "backend": "frame-analysis", "model": {}, "path": [], "seconds": 0.0, "kind": "frame",
+                                "detail": (why or "") if (named or why) else f"line {n.lineno}: `{text[:100]}` passes no scheduler: the source is subscribed "
+                                          f"without the scheduler this subscription was made with"})
     return {"unit": f"state-allocation/{prop}", "kind": "K4 frame / allocation-scope conditions of the functions under contract",
             "functions": functions, "results": results, "unsupported": None, "spec_validation": [], "bounded": [],
             "seconds": time.time() - t0}
